@@ -431,6 +431,16 @@ func (st *States) exitAndEnter(sctx switchContext, current handler) (func(), fun
 	e := util.StringError("switch state")
 	l := st.stateSwitchContextLog(sctx, current)
 
+	// NOTE the switch context was checked with the given current handler out
+	// of stateLock; if state is already switched by another switchState()
+	// in the meantime, the origin of the switch context is not current state
+	// any more.
+	if st.cs != current {
+		l.Debug().Stringer("switched_state", handlerLog(st.cs)).Msg("current state already switched; ignored")
+
+		return nil, nil, ErrIgnoreSwitchingState.Errorf("current state already switched")
+	}
+
 	var cdefer, ndefer func()
 
 	// NOTE if switching to broken, error during exiting from current handler
